@@ -161,6 +161,20 @@ def _canon_compare(tree):
         if isinstance(n, ast.Compare) and len(n.ops) == 1 and isinstance(n.ops[0], (ast.Gt, ast.GtE)):
             n.left, n.comparators = n.comparators[0], [n.left]
             n.ops = [ast.Lt() if isinstance(n.ops[0], ast.Gt) else ast.LtE()]
+    # `not a == b` is stored as `a != b` (likewise in / is): one spelling of a negated equality / membership test
+    flip = {ast.Is: ast.IsNot, ast.IsNot: ast.Is, ast.Eq: ast.NotEq, ast.NotEq: ast.Eq, ast.In: ast.NotIn, ast.NotIn: ast.In}
+    for n in ast.walk(tree):
+        for f, v in ast.iter_fields(n):
+            vs = v if isinstance(v, list) else [v]
+            for i, x in enumerate(vs):
+                if isinstance(x, ast.UnaryOp) and isinstance(x.op, ast.Not) and isinstance(x.operand, ast.Compare) \
+                        and len(x.operand.ops) == 1 and type(x.operand.ops[0]) in flip:
+                    c = x.operand
+                    c.ops = [flip[type(c.ops[0])]()]
+                    if isinstance(v, list):
+                        v[i] = c
+                    else:
+                        setattr(n, f, c)
 
 
 KNOWN_GLOBALS = frozenset("""CBAR_TICKS D2R DEFAULTS DEFAULT_DIRS DEFAULT_FREQS E2V HEADER_REGEX_STR HERE IPI LOG_CONTOUR_LEVELS LOG_FACTOR MAPPING
@@ -228,6 +242,49 @@ def _canon_continue(tree):
                     break
 
 
+def _canon_ifexp(tree):
+    """E0 normalisation:  `T = A if c else B`  (and `return A if c else B`, `T op= A if c else B`) is stored as the statement
+    `if c: T = A  else: T = B` - a two-way decision between two values has one spelling, the If statement.  Exact: the test is
+    evaluated once, then only the chosen operand; a subscript / attribute target is evaluated after the value in both forms,
+    so the rewrite is applied to those only when the target expression has no call in it."""
+    def split(st):
+        v = st.value
+        if not isinstance(v, ast.IfExp):
+            return None
+        if isinstance(st, ast.Assign):
+            if len(st.targets) != 1 or any(isinstance(x, ast.Call) for x in ast.walk(st.targets[0])):
+                return None
+        elif isinstance(st, (ast.AugAssign, ast.AnnAssign)):
+            if any(isinstance(x, ast.Call) for x in ast.walk(st.target)):
+                return None
+        def arm(val):
+            c = _clone_stmt(st)
+            c.value = val
+            sub = split(c)
+            return [sub] if sub is not None else [c]
+        return ast.copy_location(ast.If(test=v.test, body=arm(v.body), orelse=arm(v.orelse)), st)
+    for n in ast.walk(tree):
+        for fld in ("body", "orelse", "finalbody"):
+            b = getattr(n, fld, None)
+            if not isinstance(b, list):
+                continue
+            for i, st in enumerate(b):
+                if isinstance(st, (ast.Assign, ast.Return, ast.AugAssign, ast.AnnAssign)) and st.value is not None:
+                    r = split(st)
+                    if r is not None:
+                        b[i] = r
+
+
+def _clone_stmt(st):
+    import copy
+    c = copy.copy(st)
+    if isinstance(st, ast.Assign):
+        c.targets = [copy.deepcopy(t) for t in st.targets]
+    elif isinstance(st, (ast.AugAssign, ast.AnnAssign)):
+        c.target = copy.deepcopy(st.target)
+    return c
+
+
 def _canon_not_else(tree):
     """E0 normalisation:  `if not c: A else: B`  is stored as  `if c: B else: A`  (a two-way decision has one spelling; elif chains untouched)."""
     elifs = set()
@@ -240,6 +297,12 @@ def _canon_not_else(tree):
         if isinstance(n, ast.If) and n.orelse and isinstance(n.test, ast.UnaryOp) and isinstance(n.test.op, ast.Not) \
                 and not (len(n.orelse) == 1 and isinstance(n.orelse[0], ast.If)) and not (len(n.body) == 1 and isinstance(n.body[0], ast.If) and n.body[0].orelse):
             n.test = n.test.operand
+            n.body, n.orelse = n.orelse, n.body
+        elif isinstance(n, ast.If) and n.orelse and isinstance(n.test, ast.Compare) and len(n.test.ops) == 1 \
+                and isinstance(n.test.ops[0], (ast.NotEq, ast.NotIn, ast.IsNot)) \
+                and not (len(n.orelse) == 1 and isinstance(n.orelse[0], ast.If)) and not (len(n.body) == 1 and isinstance(n.body[0], ast.If) and n.body[0].orelse):
+            # `if a != b: A else: B` == `if a == b: B else: A` (same for `not in`, `is not`): the negated comparison is a `not`
+            n.test.ops = [{ast.NotEq: ast.Eq, ast.NotIn: ast.In, ast.IsNot: ast.Is}[type(n.test.ops[0])]()]
             n.body, n.orelse = n.orelse, n.body
         elif isinstance(n, ast.IfExp) and isinstance(n.test, ast.UnaryOp) and isinstance(n.test.op, ast.Not):
             n.test = n.test.operand
@@ -265,6 +328,37 @@ def _canon_guard_tail(tree):
                 new = ast.copy_location(ast.If(test=negate(st.test), body=mid, orelse=[]), st)
                 fn.body = b[:i] + [new, b[-1]]
                 break
+
+
+def _canon_loop_unpack(tree):
+    """E0 normalisation:  `for v in X: (a, b) = v; REST`  is stored as  `for (a, b) in X: REST`  when v is read nowhere else in the
+    function (likewise when v is one element of a tuple target: `for i, v in enumerate(X)`).  The only difference is the binding of v."""
+    for fn in [n for n in ast.walk(tree) if isinstance(n, (ast.FunctionDef, ast.AsyncFunctionDef))]:
+        loads = {}
+        for x in ast.walk(fn):
+            if isinstance(x, ast.Name) and isinstance(x.ctx, ast.Load):
+                loads[x.id] = loads.get(x.id, 0) + 1
+        for lp in [n for n in ast.walk(fn) if isinstance(n, (ast.For, ast.AsyncFor))]:
+            if not lp.body or not isinstance(lp.body[0], ast.Assign) or len(lp.body) < 2:
+                continue
+            st = lp.body[0]
+            if len(st.targets) != 1 or not isinstance(st.targets[0], (ast.Tuple, ast.List)) or not isinstance(st.value, ast.Name):
+                continue
+            if not all(isinstance(e, ast.Name) for e in st.targets[0].elts):
+                continue
+            v = st.value.id
+            if loads.get(v, 0) != 1:
+                continue
+            slots = [lp.target] if isinstance(lp.target, ast.Name) else list(lp.target.elts) if isinstance(lp.target, (ast.Tuple, ast.List)) else []
+            hit = [e for e in slots if isinstance(e, ast.Name) and e.id == v]
+            if len(hit) != 1:
+                continue
+            tup = ast.copy_location(ast.Tuple(elts=st.targets[0].elts, ctx=ast.Store()), hit[0])
+            if lp.target is hit[0]:
+                lp.target = tup
+            else:
+                lp.target.elts[lp.target.elts.index(hit[0])] = tup
+            del lp.body[0]
 
 
 def _canon_loops(tree):
@@ -471,6 +565,21 @@ class _OperatorCalls(ast.NodeTransformer):
         return n
 
 
+class _PipeAndDict(ast.NodeTransformer):
+    """E0 normalisation:  `x.pipe(f, a, k=v)` is `f(x, a, k=v)` (f a plain name: xarray / pandas `pipe` with a callable), and
+    `dict(k=v, ..)` is the display `{"k": v, ..}`."""
+    def visit_Call(self, n):
+        self.generic_visit(n)
+        f = n.func
+        if isinstance(f, ast.Attribute) and f.attr == "pipe" and n.args and isinstance(n.args[0], ast.Name) \
+                and not any(isinstance(a, ast.Starred) for a in n.args):
+            return ast.copy_location(ast.Call(func=n.args[0], args=[f.value] + n.args[1:], keywords=n.keywords), n)
+        if isinstance(f, ast.Name) and f.id == "dict" and not n.args and n.keywords and all(k.arg is not None for k in n.keywords):
+            return ast.copy_location(ast.Dict(keys=[ast.copy_location(ast.Constant(value=k.arg), k.value) for k in n.keywords],
+                                              values=[k.value for k in n.keywords]), n)
+        return n
+
+
 def _scope_functions(tree, modname):
     """{scope qualname: {function name: number of parameters}} for module level and each class."""
     out = {}
@@ -599,10 +708,13 @@ class Module:
         if renames:
             _Rename(renames).visit(self.tree)
         _drop_noise(self.tree)
+        _PipeAndDict().visit(self.tree)
+        _canon_ifexp(self.tree)
         _canon_while(self.tree)
         _canon_compare(self.tree)
         if os.environ.get("VSA_CANON_LOOPS", "1") == "1":
             _canon_loops(self.tree)
+        _canon_loop_unpack(self.tree)
         _canon_guard_tail(self.tree)
         _canon_continue(self.tree)
         _canon_not_else(self.tree)
@@ -718,6 +830,8 @@ class Repo:
         self.renames = detect_renames(raw)
         for name, path, rel in files:
             self.modules[name] = Module(name, path, rel, self.renames)
+        self.moved_back = self._undo_moves()
+        self.unstatic = self._undo_staticmethods()
         # numeric module constants imported from another module of the package are inlined too
         for m in self.modules.values():
             ext = {}
@@ -751,7 +865,108 @@ class Repo:
         self.attrs = AttrView(load_yaml(ypath))
         self._plugin_cache = None
 
-    INDEXER_METHODS = ("isel", "sel", "chunk", "interp", "rolling", "pad", "shift", "roll", "assign_coords", "reindex", "coarsen")
+    def _undo_staticmethods(self):
+        """E0 normalisation: a pinned method `def m(self, ..)` that never used self and was turned into `@staticmethod def m(..)` (call sites
+        unchanged: `self.m(..)`) is read with its self parameter again - the rules address the data parameters of methods by position."""
+        from .inline import PIN_FUNCS
+        n_ = 0
+        from .inline import _clone
+        for m in self.modules.values():
+            for c in m.classes.values():
+                # class-level alias of a NEW module-level function:  _set_metadata = staticmethod(_set_part_metadata)
+                for st in list(c.node.body):
+                    if not (isinstance(st, ast.Assign) and len(st.targets) == 1 and isinstance(st.targets[0], ast.Name)):
+                        continue
+                    nm, v = st.targets[0].id, st.value
+                    if isinstance(v, ast.Call) and isinstance(v.func, ast.Name) and v.func.id == "staticmethod" and len(v.args) == 1:
+                        v = v.args[0]
+                    else:
+                        continue
+                    pinned = PIN_FUNCS.get(f"{c.qualname}.{nm}")
+                    if not (isinstance(v, ast.Name) and v.id in m.funcs and pinned and pinned[0] == "self" and nm not in c.methods
+                            and m.funcs[v.id].qualname not in PIN_FUNCS):
+                        continue
+                    node = _clone(m.funcs[v.id].node)
+                    node.name = nm
+                    node.args.args.insert(0, ast.arg(arg="self", annotation=None, lineno=node.lineno, col_offset=node.col_offset))
+                    c.node.body[c.node.body.index(st)] = node
+                    node._parent = c.node
+                    for x in ast.walk(node):
+                        for ch in ast.iter_child_nodes(x):
+                            ch._parent = x
+                    c.methods[nm] = FuncInfo(m, node, c)
+                    n_ += 1
+                for fi in set(c.methods.values()):
+                    pinned = PIN_FUNCS.get(fi.qualname)
+                    if not pinned or not pinned or pinned[0] != "self" or "staticmethod" not in fi.decorators:
+                        continue
+                    a = fi.node.args
+                    cur = [x.arg for x in a.posonlyargs + a.args]
+                    if cur and cur[0] == "self":
+                        continue
+                    if cur != list(pinned[1:len(cur) + 1]) and len(cur) != len([p_ for p_ in pinned[1:] if not p_.startswith("*")]) - len(a.kwonlyargs):
+                        continue
+                    a.args.insert(0, ast.arg(arg="self", annotation=None, lineno=fi.node.lineno, col_offset=fi.node.col_offset))
+                    fi.node.decorator_list = [d for d in fi.node.decorator_list if ast.unparse(d) != "staticmethod"]
+                    fi.decorators = [d for d in fi.decorators if d != "staticmethod"]
+                    n_ += 1
+        return n_
+
+    def _undo_moves(self):
+        """E0 normalisation: a pinned top-level function that was moved to another module of the package and imported back under its
+        name is put back where it was pinned (the rules scope their scans by module).  Exact when every global name the body reads
+        is bound to the same thing in both modules (same import target, or a builtin); otherwise the function stays where it is."""
+        import builtins
+        from .inline import PIN_FUNCS
+        moved = 0
+        for qual in PIN_FUNCS:
+            mn, _, f = qual.rpartition(".")
+            m = self.modules.get(mn)
+            if m is None or f in m.funcs or f not in m.imports:
+                continue
+            m2n, f2 = m.imports[f]
+            m2 = self.modules.get(m2n)
+            if m2 is None or m2 is m or not f2 or f2 not in m2.funcs or f"{m2n}.{f2}" in PIN_FUNCS:
+                continue
+            fi = m2.funcs[f2]
+            node = fi.node
+            bound = {a.arg for a in ast.walk(node) if isinstance(a, ast.arg)} | \
+                    {x.id for x in ast.walk(node) if isinstance(x, ast.Name) and isinstance(x.ctx, (ast.Store, ast.Del))}
+            ok = True
+            for x in ast.walk(node):
+                if isinstance(x, ast.Name) and isinstance(x.ctx, ast.Load) and x.id not in bound and not hasattr(builtins, x.id):
+                    if x.id == f2 or x.id == f:
+                        continue
+                    a, b = m2.imports.get(x.id), m.imports.get(x.id)
+                    if a is None and x.id in m2.funcs and b == (m2n, x.id):
+                        continue            # a sibling function of the new home that the old home imports under the same name
+                    if a is None or a != b:
+                        ok = False
+            if not ok or node not in m2.tree.body:
+                continue
+            m2.tree.body.remove(node)
+            del m2.funcs[f2]
+            node.name = f
+            for i_, st in enumerate(m.tree.body):
+                if isinstance(st, ast.ImportFrom) and any((al.asname or al.name) == f for al in st.names):
+                    st.names = [al for al in st.names if (al.asname or al.name) != f]
+                    if not st.names:
+                        m.tree.body[i_] = ast.copy_location(ast.Pass(), st)
+            m.tree.body.append(node)
+            del m.imports[f]
+            m.funcs[f] = FuncInfo(m, node)
+            m2.imports[f2] = (mn, f)
+            for mod_ in (m, m2):
+                for n_ in ast.walk(mod_.tree):
+                    for c_ in ast.iter_child_nodes(n_):
+                        c_._parent = n_
+            moved += 1
+        return moved
+
+    INDEXER_METHODS = ("isel", "sel", "chunk", "interp", "rolling", "pad", "shift", "roll", "assign_coords", "reindex", "coarsen", "stack")
+    # external calls whose leading parameters may be given by keyword or by position: (method?, name) -> leading parameter names
+    EXTERNAL_LEADING = {(True, "expand_dims"): ("dim", "axis"), (True, "swapaxes"): ("axis1", "axis2"),
+                        (False, "swapaxes"): ("a", "axis1", "axis2")}
 
     def _canon_indexers(self):
         """E0 normalisation: `x.isel(**{K: v})` and `x.isel({K: v})` are stored as `x.isel(k=v)` when every key is a constant
@@ -759,14 +974,25 @@ class Repo:
         for m in self.modules.values():
             changed = False
             for c in ast.walk(m.tree):
-                if not (isinstance(c, ast.Call) and isinstance(c.func, ast.Attribute) and c.func.attr in self.INDEXER_METHODS):
+                if not (isinstance(c, ast.Call) and isinstance(c.func, ast.Attribute)
+                        and (c.func.attr in self.INDEXER_METHODS or (True, c.func.attr) in self.EXTERNAL_LEADING)):
                     continue
                 d = None
+                lead = self.EXTERNAL_LEADING.get((True, c.func.attr))
+                if lead and isinstance(c.func.value, ast.Name) and c.func.value.id in ("np", "numpy"):
+                    lead = self.EXTERNAL_LEADING.get((False, c.func.attr))
+                if lead and c.keywords and not any(isinstance(a, ast.Starred) for a in c.args):
+                    # expand_dims(dim=X) == expand_dims(X): keywords that continue the positional prefix become positional
+                    while len(c.args) < len(lead) and c.keywords and c.keywords[0].arg == lead[len(c.args)]:
+                        c.args.append(c.keywords.pop(0).value)
+                        changed = True
                 if c.func.attr in ("rolling", "coarsen") and len(c.args) == 1 and not isinstance(c.args[0], ast.Dict) \
                         and not any(k.arg == "dim" for k in c.keywords):
                     c.keywords = [ast.keyword(arg="dim", value=c.args[0])] + c.keywords      # rolling(dim, ...) == rolling(dim=dim, ...)
                     c.args = []
                     changed = True
+                    continue
+                if c.func.attr not in self.INDEXER_METHODS:
                     continue
                 if len(c.args) == 1 and isinstance(c.args[0], ast.Dict) and not any(k.arg is None for k in c.keywords):
                     d, where = c.args[0], "pos"
